@@ -65,8 +65,14 @@ impl<C: Cv> CurveDyn for Dyn<C> {
             }
             let p = &pp;
             let bad = check_expectations(p, &r.events, &r.pres, &r.vres, &r.decode);
+            // the observable call history of both roles, in execution order: [role, phase, op, returned handle(s), error, gate count]
+            let calls: Vec<Value> = r.events.iter().filter(|e| e["ev"] == "call")
+                .map(|e| {
+                    let ret = if e["role"] == "P" && e["op"] == "commit" { e["ret"][1].clone() } else { e["ret"].clone() };
+                    serde_json::json!([e["role"], e["ph"], e["op"], ret, e["err"], e["mlen"]])
+                }).collect();
             out.push(serde_json::json!({"id": p.id, "curve": C::NAME, "pres": r.pres, "vres": r.vres, "decode": r.decode,
-                                        "bad": bad, "proof": r.proof_bytes.as_ref().map(|b| cv::hex(b))}));
+                                        "bad": bad, "proof": r.proof_bytes.as_ref().map(|b| cv::hex(b)), "calls": calls}));
         }
         out
     }
